@@ -273,13 +273,21 @@ func c05Int32(c *core.Ctx, r *core.Reporter) {
 						r.Check(core.ObjOf(info, kv.Value) == self, "Int/"+id.Name, kv.Pos(), "is coerceInt", "Int."+id.Name+" is no longer coerceInt (the range-guarded conversion)")
 					case "ParseLiteral":
 						found = true
-						fl, ok := kv.Value.(*ast.FuncLit)
-						if !ok {
-							r.Check(core.ObjOf(info, kv.Value) == self, "Int/ParseLiteral", kv.Pos(), "is coerceInt", "Int.ParseLiteral is neither a literal closure nor coerceInt")
+						var body *ast.BlockStmt
+						if fl, ok := kv.Value.(*ast.FuncLit); ok {
+							body = fl.Body
+						} else if fo, ok := core.ObjOf(info, kv.Value).(*types.Func); ok && types.Object(fo) != self {
+							// a named function of the package in place of the literal
+							if fd := c.DeclOfObj(fo); fd != nil {
+								body = fd.Body
+							}
+						}
+						if body == nil {
+							r.Check(core.ObjOf(info, kv.Value) == self, "Int/ParseLiteral", kv.Pos(), "is coerceInt", "Int.ParseLiteral is neither a function of this package nor coerceInt")
 							return true
 						}
 						bad := ""
-						ast.Inspect(fl.Body, func(y ast.Node) bool {
+						ast.Inspect(body, func(y ast.Node) bool {
 							ret, ok := y.(*ast.ReturnStmt)
 							if !ok || len(ret.Results) != 1 {
 								return true
